@@ -182,6 +182,7 @@ def step (st : St) (line : String) : St × String :=
     | _, _ => bad
   | ["block", a] =>
     ({ st with w := { st.w with bank := { st.w.bank with blocked := fun x => x == a || st.w.bank.blocked x } } }, "ok")
+  | ["restart"] => ({ st with w := Convert.step B st.w .restart }, "ok")
   | ["dump"] => (st, dump st)
   | _ => bad
 
